@@ -82,6 +82,9 @@ class World:
 
     def __init__(self, tape: Tape, worker: str = "asyncio") -> None:
         self.handlers: Dict[int, list] = {}
+        self.reader_pushes_pending = 0
+        self.reader_pushes_cancelled = 0
+        self.reader_push_blocked_at_trigger = 0
         self.tape = tape
         self.worker = worker
         self.sim = Sim(tape)
@@ -112,6 +115,7 @@ class World:
     def trigger_shutdown(self) -> None:
         if self.trigger_at is None:
             self.trigger_at = self.sim.now
+            self.reader_push_blocked_at_trigger = self.reader_pushes_pending
             self.sim.rec("trigger")
             if self._trigger is not None:
                 self._trigger()
@@ -123,6 +127,43 @@ class World:
         hc_http_stream.time = wall
         hc_ws_stream.time = wall
         self._probe_handlers()
+        self._probe_reader_push()
+
+    def _probe_reader_push(self) -> None:
+        """Observation only: count StreamBuffer.push calls made from the connection's reader task
+        (pong / close replies) that never returned - the signature of known finding F21."""
+        import sys as _sys
+
+        try:
+            import hypercorn.protocol.h2 as h2m
+
+            orig = getattr(h2m.StreamBuffer, "_hcsim_orig_push", None) or h2m.StreamBuffer.push
+            h2m.StreamBuffer._hcsim_orig_push = orig
+
+            async def push(self_: Any, data: bytes) -> None:
+                w = World.current
+                from_reader = False
+                frame = _sys._getframe(1)
+                depth = 0
+                while frame is not None and depth < 40:
+                    if frame.f_code.co_name == "_read_data":
+                        from_reader = True
+                        break
+                    frame = frame.f_back
+                    depth += 1
+                if w is not None and from_reader:
+                    w.reader_pushes_pending += 1
+                try:
+                    await orig(self_, data)
+                finally:
+                    if w is not None and from_reader:
+                        w.reader_pushes_pending -= 1
+                        if getattr(w, "_run_over", False):
+                            w.reader_pushes_cancelled += 1
+
+            h2m.StreamBuffer.push = push
+        except Exception as error:  # pragma: no cover
+            self.sim.notes.append(f"reader push probe unavailable: {error!r}")
 
     def _probe_handlers(self) -> None:
         """Observation-only wrapper around TCPServer.run: handler start/end per connection."""
